@@ -6,5 +6,6 @@ import "verif/harness/core"
 
 func main() {
 	core.TablesNamespace = "Cluster"
+	defer cleanupBinary()
 	core.Main()
 }
